@@ -115,3 +115,74 @@ Example c06_timed_example :
   | None => False
   end.
 Proof. vm_compute. repeat split. eexists. reflexivity. Qed.
+
+(* ---- timed runs with local WriteUpdate calls (TimedW.v): every interleaving of the connection's own inputs,
+        plugin writes and the keep-alive manager serving their reset requests ---- *)
+From Verif Require Import TimedW TimedWProofs.
+
+(* "never lets more than about one third of the hold time pass without sending a KEEPALIVE or UPDATE", for all
+   local WriteUpdate patterns: the keep-alive timer is armed with a deadline at most H/3 + (largest latency between an
+   UPDATE write and the manager serving its reset) after the last KEEPALIVE or UPDATE written; served within L *)
+Theorem c06_cadence_with_writes : forall cf pl xs d L,
+  reachable_x cf pl xs -> up (c_phase (ts_conn (xs_t xs))) = true -> c_holdns (ts_conn (xs_t xs)) <> 0 ->
+  served_within L (xs_t xs) d ->
+  ts_now (xs_t xs) + d <= last_tx xs + c_holdns (ts_conn (xs_t xs)) / 3 + xs_maxlat xs + L.
+Proof. exact x_keepalive_cadence. Qed.
+Print Assumptions c06_cadence_with_writes.
+
+Theorem c06_armed_with_writes : forall cf pl xs,
+  reachable_x cf pl xs -> up (c_phase (ts_conn (xs_t xs))) = true -> c_holdns (ts_conn (xs_t xs)) <> 0 ->
+  exists dl, ts_ka (xs_t xs) = Some dl /\ dl <= last_tx xs + c_holdns (ts_conn (xs_t xs)) / 3 + xs_maxlat xs.
+Proof. exact x_keepalive_armed. Qed.
+Print Assumptions c06_armed_with_writes.
+
+(* local writes never make the hold timer fire early (they restart the keep-alive timer only) *)
+Theorem c06_no_early_expiry_with_writes : forall cf pl xs d r,
+  reachable_x cf pl xs -> up (c_phase (ts_conn (xs_t xs))) = true -> c_holdns (ts_conn (xs_t xs)) <> 0 ->
+  xstep cf pl xs d (XConn IHold) = Some r ->
+  ts_last_rx (xs_t xs) + c_holdns (ts_conn (xs_t xs)) <= ts_now (xs_t xs) + d.
+Proof. exact x_no_early_expiry. Qed.
+Print Assumptions c06_no_early_expiry_with_writes.
+
+Theorem c06_reset_action : forall cf pl xs d k xs' acts,
+  c_holdns (ts_conn (xs_t xs)) <> 0 -> xstep cf pl xs d (XReset k) = Some (xs', acts) ->
+  acts = [AArmKA (c_holdns (ts_conn (xs_t xs)) / 3)]
+  /\ ts_ka (xs_t xs') = Some (ts_now (xs_t xs) + d + c_holdns (ts_conn (xs_t xs)) / 3)
+  /\ ts_conn (xs_t xs') = ts_conn (xs_t xs) /\ ts_hold (xs_t xs') = ts_hold (xs_t xs).
+Proof. exact x_reset_action. Qed.
+Print Assumptions c06_reset_action.
+
+(* hold time 0 and local writes: nothing is armed, nothing fires *)
+Theorem c06_zero_with_writes : forall cf pl xs d,
+  reachable_x cf pl xs -> up (c_phase (ts_conn (xs_t xs))) = true -> c_holdns (ts_conn (xs_t xs)) = 0 ->
+  xstep cf pl xs d (XConn IHold) = None /\ xstep cf pl xs d (XConn IKA) = None
+  /\ (forall k xs' acts, xstep cf pl xs d (XReset k) = Some (xs', acts) ->
+        acts = [] /\ ts_ka (xs_t xs') = None /\ ts_hold (xs_t xs') = None /\ xs_resets xs' = xs_resets xs)
+  /\ (forall b xs' acts, xstep cf pl xs d (XWrite b) = Some (xs', acts) ->
+        ts_ka (xs_t xs') = None /\ ts_hold (xs_t xs') = None).
+Proof. exact x_zero_hold. Qed.
+Print Assumptions c06_zero_with_writes.
+
+Theorem c06_resets_le_writes : forall cf pl xs, reachable_x cf pl xs -> xs_resets xs <= xs_writes xs.
+Proof. exact x_resets_le_writes. Qed.
+Print Assumptions c06_resets_le_writes.
+
+(* non-vacuity: hold 9 s; Established at 2 s with one UPDATE written inside OnEstablished; a plugin write at 3 s;
+   the manager serves the two resets at 3.5 s and 3.6 s (out of order); deadline = 3.6 s + 3 s; the timer cannot
+   fire at 6.5 s and does at 6.6 s; largest latency 1.6 s (the write at 2 s served at 3.6 s) *)
+Example c06_writes_example :
+  let cf := mkConf 167772161 65001 65000 9 in
+  let pl := mkPlug None (fun _ => None) [[0;0;0;0]] in
+  let o := mkOpen 4 65000 30 167772162 [[mkCap 65 [0;0;253;232]]] in
+  let s := 1000000000 in
+  let pre := [(1 * s, XConn (IRd (RMsg (MOpen o)))); (0, XConn IApprove); (1 * s, XConn (IRd (RMsg MKeepalive)));
+              (0, XConn IApprove); (1 * s, XWrite [0;0;0;0]); (s / 2, XReset 1); (s / 10, XReset 0)] in
+  match xrun cf pl (xinit 0) pre with
+  | Some (xs, _) => c_phase (ts_conn (xs_t xs)) = PEstablished /\ xs_writes xs = 2 /\ xs_resets xs = 2
+               /\ xs_pending xs = [] /\ xs_maxlat xs = 16 * s / 10 /\ last_tx xs = 3 * s
+               /\ ts_ka (xs_t xs) = Some (66 * s / 10)
+               /\ xstep cf pl xs (29 * s / 10) (XConn IKA) = None
+               /\ (exists r, xstep cf pl xs (3 * s) (XConn IKA) = Some r)
+  | None => False
+  end.
+Proof. vm_compute. repeat split. eexists. reflexivity. Qed.
